@@ -14,6 +14,7 @@ TRACE   Trace_History.tla (H1) and Trace_Runtime.tla (cache steps A1-A4) judge t
 import inspect, json, os, random, subprocess, sys, itertools
 from concurrent.futures import ThreadPoolExecutor
 from vlib import lib, run, tlc
+from props import api_common as ac
 
 PROP = 'C13'
 RUNNER = os.path.join(lib.VERIF, 'harness', 'c13_runner.py')
@@ -204,6 +205,44 @@ def main():
         jobs.append({'kind': 'history', 'calls': [{'mod': m_, 'fn': f_, 'args': a_, 'mutate': True}, {'mod': m_, 'fn': f_, 'args': a_, 'mutate': False},
                                                   {'mod': firstuse[2][0], 'fn': firstuse[2][1], 'args': firstuse[2][2], 'mutate': False},
                                                   {'mod': firstuse[11][0], 'fn': firstuse[11][1], 'args': firstuse[11][2], 'mutate': False}]})
+    #     ... and the aliases of the country dispatchers in both orders: what XI / EL leave in a cache must not answer GB / GR
+    for a_, b_ in ((['XI980780684'], ['GB980780684']), (['EL094259216'], ['GR094259216']), (['GB980780684'], ['XI980780684']),
+                   (['NL4495445B01'], ['nl4495445b01'])):
+        for m_ in ('eu.vat', 'vatin'):
+            jobs.append({'kind': 'history', 'calls': [{'mod': m_, 'fn': 'validate', 'args': a_, 'mutate': False}, {'mod': m_, 'fn': 'validate', 'args': b_, 'mutate': False},
+                                                      {'mod': m_, 'fn': 'validate', 'args': a_, 'mutate': False}]})
+    # (e) the system date is an argument too: numbers born next year, judged two years from now -- by modules imported today
+    #     ('after') and by a fresh interpreter started on that day ('before'); a date captured at import time shows
+    import datetime as _dt
+    from props import c12
+    yr = _dt.date.today().year
+    clock_calls = []
+    with ac.clock((yr + 3, 1, 1)):
+        for nm in ac.CLOCK_MODULES:
+            if nm not in c12.POS:
+                continue
+            mod_ = lib.module(nm)
+            corp_ = lib.corpus(nm, mod_)
+            try:
+                v0 = mod_.validate(corp_[0])
+            except Exception:
+                continue
+            yp, yl, mp, dp = c12.POS[nm]
+            if not v0.isascii() or len(v0) < max(yp + yl, mp + 2, dp + 2) + 2:
+                continue
+            for (y_, m_, d_) in ((yr + 1, 1, 15), (yr - 1, 6, 15)):
+                w_ = list(v0)
+                w_[yp:yp + yl] = ('%0' + str(yl) + 'd') % (y_ % 10 ** yl)
+                w_[mp:mp + 2] = '%02d' % m_
+                w_[dp:dp + 2] = '%02d' % d_
+                t_ = ''.join(w_)
+                for tail in range(100):          # every pair of final digits: whichever one is right on that day
+                    clock_calls.append({'mod': nm, 'fn': 'validate', 'args': [t_[:-2] + '%02d' % tail], 'mutate': False})
+    clock_pair = None
+    if clock_calls:
+        clock_pair = (len(jobs), len(jobs) + 1)
+        jobs.append({'kind': 'clock', 'calls': clock_calls, 'date': [yr + 2, 6, 1], 'when': 'before', 'selfref': True})
+        jobs.append({'kind': 'clock', 'calls': clock_calls, 'date': [yr + 2, 6, 1], 'when': 'after', 'selfref': True})
     # (b) sibling arguments: two numbers that share a long prefix but fall into different registry entries (a lookup memoised
     #     under a truncated key answers the second one with the first one's entry); taken from the registry files themselves
     for (m_, f_), pairs in sorted(sibling_arguments().items()):
@@ -281,8 +320,12 @@ def main():
     # ---- events
     hev, hidx, rev, ridx = [], [], [], []
     nsched_timeouts = 0
+    clock_before = {}
+    if clock_pair:
+        for r in outs[clock_pair[0]]['results']:
+            clock_before[json.dumps([r['mod'], r['fn'], r['args']])] = r['r']
     for ji, (job, o) in enumerate(zip(jobs, outs), 1):
-        first_in_job = {}
+        first_in_job = dict(clock_before) if job['kind'] == 'clock' else {}
         for r in o['results']:
             k = json.dumps([r['mod'], r['fn'], r['args']])
             if job.get('selfref'):
